@@ -80,12 +80,23 @@ def make_problem(c, rec):
     NZ = [[j for j, v in enumerate(row) if v != 0] for row in c["a"]]
     use_args = c["use_args"]
     ret = c["ret"]
+    jac_ret = c.get("jac_ret", "ndarray")
+    ev_ret = c.get("ev_ret", "float")
+
+    def wrap_ev(v):
+        if ev_ret == "npfloat":
+            return np.float64(v)
+        if ev_ret == "zerod":
+            return np.array(v)
+        return v
 
     def wrap_out(vals):
         if ret == "tuple":
             return tuple(vals)
         if ret == "ndarray":
             return np.array(vals, dtype=float)
+        if ret == "npfloat_list":
+            return [np.float64(v) for v in vals]
         return vals
 
     # NOTE: every expression below mirrors Prob::rhs / Prob::jacobian in py_ref.rs literally
@@ -144,7 +155,7 @@ def make_problem(c, rec):
         def jacf(t, y, *args):
             rec.jcalls += 1
             rec.jac_args.add(tuple(tok(a) for a in args))
-            return np.array(jac_core(float(t), [float(v) for v in y], [float(a) for a in args]), dtype=float)
+            return deliver_matrix(jac_core(float(t), [float(v) for v in y], [float(a) for a in args]), jac_ret)
     else:
         def fun(t, y):
             rec.calls += 1
@@ -156,7 +167,7 @@ def make_problem(c, rec):
 
         def jacf(t, y):
             rec.jcalls += 1
-            return np.array(jac_core(float(t), [float(v) for v in y], P), dtype=float)
+            return deliver_matrix(jac_core(float(t), [float(v) for v in y], P), jac_ret)
 
     events = []
     for e in c["events"]:
@@ -169,11 +180,11 @@ def make_problem(c, rec):
                 def ev(t, y, *args):
                     rec.ecalls += 1
                     rec.ev_args.add(tuple(tok(a) for a in args))
-                    return (float(t) - cc) if is_time else (float(y[idx]) - cc)
+                    return wrap_ev((float(t) - cc) if is_time else (float(y[idx]) - cc))
             else:
                 def ev(t, y):
                     rec.ecalls += 1
-                    return (float(t) - cc) if is_time else (float(y[idx]) - cc)
+                    return wrap_ev((float(t) - cc) if is_time else (float(y[idx]) - cc))
             return ev
         ev = mk()
         if e["terminal"] == "true":
@@ -205,6 +216,29 @@ def make_problem(c, rec):
             ev.direction = 2
         events.append(ev)
     return fun, jacf, jac_core, events, P
+
+
+def deliver_matrix(J, form):
+    """The n x n matrix J (list of lists of floats) as a numpy array in the given delivery form."""
+    A = np.array(J, dtype=float)
+    if form == "ndarray":
+        return A
+    if form == "fortran":
+        return np.asfortranarray(A)
+    if form == "tview":
+        return np.array(A.T, order="C").T          # C buffer holding J^T, viewed transposed (F-contiguous)
+    if form == "strided":
+        n = A.shape[0]
+        K = np.full((2 * n, 2 * n), 7.5)
+        K[::2, ::2] = A
+        return K[::2, ::2]                          # non-contiguous view
+    if form == "intarray":
+        return np.array([[int(v) for v in row] for row in J], dtype=np.int64)
+    if form == "intfortran":
+        return np.asfortranarray(np.array([[int(v) for v in row] for row in J], dtype=np.int64))
+    if form == "int32":
+        return np.array([[int(v) for v in row] for row in J], dtype=np.int32)
+    raise ValueError(form)
 
 
 def tol_value(t):
@@ -336,10 +370,7 @@ def run_case(c):
         kw["jac"] = jacf
     elif c["jac"] == "const":
         J = jac_core(t0, y0v, P)
-        if c["jac_form"] == "intarray":
-            kw["jac"] = np.array([[int(v) for v in row] for row in J])
-        else:
-            kw["jac"] = np.array(J, dtype=float)
+        kw["jac"] = deliver_matrix(J, c["jac_form"])
     if c["has_sparsity"]:
         rows = c["pat"]["rows"]
         form = c["pat"]["form"]
@@ -347,7 +378,9 @@ def run_case(c):
 
     out = {"id": c["id"], "side": "py", "n": c["n"]}
     try:
-        r = ivp.solve_ivp(fun, (t0, tf), y0, **kw)
+        tsf = c.get("tspan_form", "tuple")
+        tspan = (t0, tf) if tsf == "tuple" else ([t0, tf] if tsf == "list" else np.array([t0, tf]))
+        r = ivp.solve_ivp(fun, tspan, y0, **kw)
     except BaseException as e:  # PanicException derives from BaseException
         if isinstance(e, (KeyboardInterrupt, SystemExit)):
             raise
